@@ -219,8 +219,11 @@ pub fn syntax_to_semantic<T: SourceTrait>(
             // It is probably possible to encapsulate the manipulations of (context, errors).
             // But I have not made much of an attempt to do so.
             synast::Stmt::Include(include) => {
-                let file: synast::FilePath = include.file().unwrap();
-                let file_path = file.to_string().unwrap();
+                // No usable path: `parse_included_files` has parsed nothing for this statement.
+                let Some(file_path) = include.file().and_then(|file| file.to_string()) else {
+                    context.insert_error(InvalidFilename, &include);
+                    continue;
+                };
                 if file_path == "stdgates.inc" {
                     // We do not use a file for standard library, but rather create the symbols.
                     context.standard_library_gates(&include);
